@@ -124,7 +124,13 @@ def gen_ir(seed):
     # some programs have created and abandoned a few hundred short-lived fibers (suspended / never started) before the
     # scenario proper starts: "a bounded number of fibers" bounds the ones alive at once, not the ones ever created
     crowd = rng.choice([0, 0, 0, 0, 0, 0, 0, 300, 600])
-    return {"fibers": fibers, "steps": rng.range(8, 45), "wrap": rng.chance(0.25), "sites": g.sites, "hmod": hmod, "crowd": crowd}
+    ir = {"fibers": fibers, "steps": rng.range(8, 45), "wrap": rng.chance(0.25), "sites": g.sites, "hmod": hmod, "crowd": crowd}
+    if rng.chance(1.0 / 12):
+        # before the scenario proper: a generator started at the bottom of a chain of 3-6 nested fibers, each of them some 50 calls
+        # deep (a fiber has 64 frames of its own), yields all the way out; resumed from the shallow driver it recurses ~50 deep
+        # itself: how deep a fiber may recurse is its own business, not that of whoever happened to call it first
+        ir["deepgen"] = [rng.range(3, 6), rng.range(40, 55), rng.range(30, 55)]
+    return ir
 
 
 def render(ir):
@@ -252,6 +258,13 @@ def render(ir):
         out.append("var gtick = 0;\n" + MIX + 'import "hm";\n')
     else:
         out.append("var gtick = 0;\n" + HELPERS + MIX)
+    if ir.get("deepgen"):
+        emit("var dgen = nil;")
+        emit("fn drec(n, k) { if n == 0 { return k(); } return drec(n - 1, k); }")
+        emit("fn dlevel(d, r, q) {")
+        emit("if d == 0 { dgen = Fiber.new(|| { var got = Fiber.yield(1); return drec(q, || { return got + q; }); }); return dgen.call(); }", 1)
+        emit("var f = Fiber.new(|| { return drec(r, || { return dlevel(d - 1, r, q) + 1; }); }); return f.call();", 1)
+        emit("}")
     emit("fn driver() {")
     emit("var shared = 0;", 1)
     emit("var fibers = [];", 1)
@@ -269,6 +282,8 @@ def render(ir):
         block(f["body"], 3)
         emit("};", 2)
         emit("};", 1)
+    if ir.get("deepgen"):
+        emit('print(("ev", "deepgen", dlevel(%d, %d, %d), dgen.call(5), dgen.has_finished()));' % tuple(ir["deepgen"]), 1)
     if ir.get("crowd"):
         emit("var crowd = 0;", 1)
         emit("for q in 0..%d { var tf = Fiber.new(|x| { var got = Fiber.yield(x + 1); return got; }); if q %% 2 == 0 { crowd = crowd + tf.call(q); } }" % ir["crowd"], 1)
@@ -634,6 +649,9 @@ def model(ir, tape, faults, chooser=None):
         return None
 
     outcome = {"ok": True}
+    if ir.get("deepgen"):
+        probes.inc("generator_started_deep_in_a_chain_of_fibers_resumed_from_shallow_code")
+        ev.append([s("deepgen"), num(ir["deepgen"][0] + 1), num(5 + ir["deepgen"][2]), b(True)])
     if ir.get("crowd"):
         probes.inc("programs_after_hundreds_of_abandoned_fibers")
         ev.append([s("crowd"), num(sum(q + 1 for q in range(0, ir["crowd"], 2)))])
